@@ -763,9 +763,9 @@ def run_property(prop, harnesses, tier, level_text, extra_assumptions=(), only=N
     finally:
         if not keep:
             shutil.rmtree(scratch, ignore_errors=True)
-    return finish(prop, tier, seed, results, t0, level_text, extra_assumptions)
+    return finish(prop, tier, seed, results, t0, level_text, extra_assumptions, partial=only is not None)
 
-def finish(prop, tier, seed, results, t0, level_text, extra_assumptions=(), py_results=None):
+def finish(prop, tier, seed, results, t0, level_text, extra_assumptions=(), py_results=None, partial=False):
     viol = 0; fault = 0; incon = 0
     samples = []; evaluations = 0; nontriv = 0; funcs = set(); solver_s = 0.0; tvn = 0; tva = 0
     lines = []
@@ -823,7 +823,8 @@ def finish(prop, tier, seed, results, t0, level_text, extra_assumptions=(), py_r
         'wall_s': round(time.time() - t0, 2), 'violations': viol,
     }
     os.makedirs(os.path.join(VERIF, 'evidence'), exist_ok=True)
-    with open(os.path.join(VERIF, 'evidence', prop + '.json'), 'w') as f:
+    # a run restricted with --only is a debugging run: its (partial) evidence goes to /var/tmp, the committed evidence file keeps the last full run
+    with open(os.path.join('/var/tmp', 'evidence_%s_partial.json' % prop) if partial else os.path.join(VERIF, 'evidence', prop + '.json'), 'w') as f:
         json.dump(ev, f, indent=1, default=str)
     for l in lines:
         print(l)
